@@ -234,6 +234,23 @@ func c07r6(c *core.Ctx) {
 		})
 		c.Check(!swallowed, "decrypt-error-returned@"+fname(dr), posOf(s), "a Decrypt error is always returned to the caller", "a Decrypt error can be swallowed (the Read returns a nil error): bytes consumed by the failed attempt are lost silently")
 	}
+	// (a') the decrypter / encrypter is asked of the session on every read / write: Session.Decrypter() is where a cryptographer
+	// installed by a later pair-verify becomes active, so a copy kept in the Connection goes on using the replaced keys and counters
+	for _, spec := range []struct{ getter, method string }{{"getDecrypter", "Decrypter"}, {"getEncrypter", "Encrypter"}} {
+		g := p.Func("hap", "(*Connection)."+spec.getter)
+		if g == nil {
+			continue // the getter was written out; the users are checked by C03-R4 / C08-R5
+		}
+		fresh := returnsOnly(g, func(v ssa.Value) bool {
+			if core.IsNilConst(v) {
+				return true
+			}
+			call, ok := v.(*ssa.Call)
+			return ok && core.IsInvoke(call, qSession, spec.method)
+		})
+		c.Check(fresh, "cryptographer-asked-per-call@"+fname(g), g.Pos(), spec.getter+" returns what Session."+spec.method+"() answers at that moment (or nil)",
+			spec.getter+" can return a cryptographer remembered from an earlier call: after a second pair-verify on the connection the old keys and frame counter stay in use and every frame of the peer fails authentication")
+	}
 	// (b) the frame counter is advanced only after the frame's bytes were read: no stream read between the counter store and the open
 	bad := 0
 	var w core.Path
@@ -1350,11 +1367,45 @@ func c09r7(c *core.Ctx) {
 						after := pa.ResolveAt(idx[n+1], flag)
 						before := pa.ResolveAt(idx[n], flag)
 						isTrue := func(v ssa.Value) bool { k, ok := core.ConstInt(v); return ok && k == 1 }
+						isFalse := func(v ssa.Value) bool { k, ok := core.ConstInt(v); return ok && k == 0 }
+						// what this iteration's path found out about the incoming flag:  failed = failed || x  tests it
+						beforeKnown, beforeVal := false, false
+						if isTrue(before) || isFalse(before) {
+							beforeKnown, beforeVal = true, isTrue(before)
+						}
+						for k := idx[n]; k < idx[n+1]; k++ {
+							b := pa[k]
+							iff, isIf := b.Instrs[len(b.Instrs)-1].(*ssa.If)
+							if !isIf || k+1 >= len(pa) {
+								continue
+							}
+							if cv := pa.ResolveAt(k, iff.Cond); cv == before {
+								beforeKnown, beforeVal = true, pa[k+1] == b.Succs[0]
+							}
+						}
+						// after = "the entry of this iteration carries a status", read off the entry itself
+						statusTest := false
+						if bo, isB := after.(*ssa.BinOp); isB && bo.Op == token.NEQ && core.IsNilConst(bo.Y) {
+							if base, isL := core.FieldLoad(bo.X, tCharResp, "Status"); isL {
+								if al, isA := base.(*ssa.Alloc); isA {
+									for _, ap := range gl.appends {
+										ea := appendedAlloc(ap)
+										if ea != nil && (ea == al || structOrigin(&ssa.UnOp{Op: token.MUL, X: al}, 6) == ea) {
+											statusTest = true
+										}
+									}
+								}
+							}
+						}
 						switch {
-						case stored && isTrue(after):
+						case stored && (isTrue(after) || statusTest):
 							good++
 						case !stored && (after == before || sameConst(after, before)):
 							good++
+						case !stored && beforeKnown && beforeVal && isTrue(after):
+							good++ // the flag was already set and stays set
+						case !stored && beforeKnown && !beforeVal && (statusTest || isFalse(after)):
+							good++ // nothing failed so far and nothing fails now
 						default:
 							bad++
 						}
